@@ -905,6 +905,7 @@ func corrupt(in *instance, cs caseT, rnd *sim.Rng, donors map[string][]byte) ([]
 		x := new(big.Int).SetBytes(b)
 		one := big.NewInt(1)
 		var nv *big.Int
+		padTo := 0
 		switch cs.C {
 		case "empty":
 			sl.set([]byte{})
@@ -915,12 +916,13 @@ func corrupt(in *instance, cs caseT, rnd *sim.Rng, donors map[string][]byte) ([]
 		case "zero":
 			sl.set([]byte{0})
 			return encode(root), nil
-		case "small":
+		case "small", "smallpadded":
 			if cs.Kind == "prime" {
 				nv = big.NewInt(23) // a safe Blum prime, only too small
 			} else {
 				nv = big.NewInt(15)
 			}
+			padTo = len(b) // "smallpadded": the same value in a byte string of the original width (leading zeros)
 		case "short":
 			if cs.Kind == "prime" {
 				nv = new(big.Int).Rsh(x, 8)
@@ -993,7 +995,13 @@ func corrupt(in *instance, cs caseT, rnd *sim.Rng, donors map[string][]byte) ([]
 		default:
 			return nil, fmt.Errorf("corruption %s is not defined for kind %s", cs.C, cs.Kind)
 		}
-		sl.set(nv.Bytes())
+		if cs.C == "smallpadded" && padTo > 0 {
+			pad := make([]byte, padTo)
+			nv.FillBytes(pad)
+			sl.set(pad)
+		} else {
+			sl.set(nv.Bytes())
+		}
 		if cs.Kind == "modulus" && entry != nil && nv.Cmp(big.NewInt(4)) > 0 {
 			// keep the entry's Pedersen parameters valid for the new modulus (two small units), so that the modulus
 			// itself is the only thing wrong with the entry
@@ -1910,6 +1918,41 @@ func main() {
 					}
 				}()
 			}
+		}
+	}
+
+	// ---- restoring over a used receiver: a value that already held another object of the type (a receive buffer, a
+	//      cached configuration that is reloaded) must end up equal to the stored object, or the restore must fail
+	for ty, l := range b.insts {
+		for i, in := range l {
+			prev := l[(i+1)%len(l)]
+			if prev == in || bytes.Equal(prev.Enc, in.Enc) {
+				continue
+			}
+			cs0 := caseT{Ty: ty, Field: "*", C: "used-receiver", Expect: "roundtrip"}
+			func() {
+				defer func() {
+					if p := recover(); p != nil {
+						res.violate(in, cs0, "roundtrip", "panic", fmt.Sprintf("restoring over a used receiver panics: %v", p), in.Enc)
+					}
+				}()
+				recv, err := decodeDocumented(ty, prev.Enc)
+				if err != nil {
+					return
+				}
+				res.Roundtrips++
+				if ty == "protocol.Message" {
+					err = recv.(*protocol.Message).UnmarshalBinary(in.Enc)
+				} else {
+					err = cbor.Unmarshal(in.Enc, recv)
+				}
+				if err != nil {
+					return // refusing is fine
+				}
+				if a, bb := valueCanon(in.Obj), valueCanon(recv); a != bb {
+					res.violate(in, cs0, "roundtrip", "roundtrip-differs", "an object restored over a receiver that held another "+ty+" differs from the stored one: "+firstDiff(a, bb), in.Enc)
+				}
+			}()
 		}
 	}
 
